@@ -802,6 +802,11 @@ func SelectVictimsOnNode(
 	if err := ssn.SimulatePredicateFn(ctx, state, preemptor, nodeInfo); err != nil {
 		return nil, api.AsStatus(fmt.Errorf("failed to predicate pod %s/%s on node %s: %v", preemptor.Namespace, preemptor.Name, nodeInfo.Name, err))
 	}
+	// The same holds for the queue and the node resources: the victims the plugins allow may not
+	// be enough to make room for the preemptor.
+	if !ssn.SimulateAllocatableFn(ctx, state, currentQueue, preemptor) || !preemptor.InitResreq.LessEqual(nodeInfo.FutureIdle(), api.Zero) {
+		return nil, api.AsStatus(fmt.Errorf("pod %s/%s does not fit on node %s after removing all potential victims", preemptor.Namespace, preemptor.Name, nodeInfo.Name))
+	}
 
 	var victims []*api.TaskInfo
 
